@@ -63,14 +63,20 @@ THEOREMS = [
     dict(name="Snow.C13.complete_or_raise_fresh_fixed_0D", clause="0D, run() as in /repo (SnowObj.runFixed), any earlier history of the object: complete results or every accessor raises", strength="full"),
     dict(name="Snow.C13.complete_or_raise_fresh_fixed_1D", clause="1D, run() as in /repo (SnowObj.runFixed), any earlier history of the object: complete results or every accessor raises", strength="full"),
     dict(name="Snow.C13.published_solid_rows_2D", clause="2D: every published solidification row holds iceFrac of its step's field, and that step's 90 % test used sigmaOf of exactly these entries", strength="full"),
-    dict(name="Snow.C13.hlen_run2D", clause="2D: tempProfile(dt) has exactly Nt_exp samples (discharges the side hypothesis of the 2D buffer/alignment theorems for the run itself)", strength="full"),
-    dict(name="Snow.C13.history_aligned_run2D", clause="2D: history alignment for S2D.run on (tempProfile(dt), Nt_exp) without side hypothesis", strength="full"),
-    dict(name="Snow.C13.time_nondecreasing_run2D", clause="2D: non-decreasing time axis for S2D.run on (tempProfile(dt), Nt_exp) without side hypothesis", strength="full"),
+    dict(name="Snow.C13.hlen_run2D", clause="2D: len(tempProfile(dt)) <= Nt_exp - the form the buffer/alignment theorems need (equality: len_run2D)", strength="full"),
+    dict(name="Snow.C13.history_aligned_run2D", clause="2D: history alignment for the run _run_2D makes (T0C := oc.start, profile := tempProfile(dt), Nt_exp := ceil(t_tot/dt)+1), no side hypothesis", strength="full"),
+    dict(name="Snow.C13.time_nondecreasing_run2D", clause="2D: non-decreasing time axis for the run _run_2D makes (T0C := oc.start, tempProfile(dt), Nt_exp), given 0 <= dt (discharged in time_nondecreasing_run2D_code)", strength="full"),
     dict(name="Snow.C13.complete_or_raise_obj_2D", clause="2D, run() as in /repo, any earlier history of the object: results and histories of THIS run, or the run raised and every accessor raises", strength="full"),
     dict(name="Snow.C13.study_async_ok", clause="asynchronous Nrep>1 study that completed: results = table of all repetitions, history accessors return None (complete result of such a study)", strength="full"),
     dict(name="Snow.C13.study_async_rows", clause="... with exactly Nrep rows", strength="full"),
     dict(name="Snow.C13.study_async_raises", clause="asynchronous study in which a repetition raised: run() raises and every accessor raises (no table with missing seeds)", strength="full"),
     dict(name="Snow.C13.asyncExc_isSome_iff", clause="an asynchronous study raises iff some repetition raised", strength="full"),
+    dict(name="Snow.C13.len_run2D", clause="2D: tempProfile(dt) has exactly Nt_exp samples", strength="full"),
+    dict(name="Snow.C13.dt_grid2D_nonneg", clause="2D: the code's dt is non-negative (alpha_max >= 0)", strength="full"),
+    dict(name="Snow.C13.time_nondecreasing_run2D_code", clause="2D: non-decreasing time axis for the run _run_2D makes (T0C := oc.start), only hypothesis alpha_max >= 0", strength="full"),
+    dict(name="Snow.C13.times_within_2D_code", clause="2D: all times within the process, 0 <= dt discharged", strength="full"),
+    dict(name="Snow.C13.times_within_1D_code", clause="1D: all times within the process, 0 <= dt discharged (alpha_max >= 0)", strength="full"),
+    dict(name="Snow.C13.time_nondecreasing_run1D", clause="1D: non-decreasing time axis for run1D p itself, only hypothesis alpha_max >= 0", strength="full"),
 ]
 TRUSTED = [
     "Lean 4.33 kernel; axioms per theorem listed under coverage.axioms",
